@@ -87,6 +87,12 @@ func checkC04(rt fataler, rec *evid.Rec, c *resgen.RefCase) bool {
 	rec.Class("relation:" + c.Relation)
 	rec.Class("reloc:" + c.Reloc)
 	rec.Class("use:" + c.Use)
+	if c.DoubleOptional {
+		rec.Class("behind-double-optional")
+		if c.Invalid && (c.Relation == "ancestor" || c.Relation == "self") {
+			rec.Class("behind-double-optional:relocated")
+		}
+	}
 	if c.Invalid {
 		rec.Class("expect:" + c.FailKind)
 	} else {
